@@ -75,6 +75,9 @@ def default_execute(scn, ctx, timeout=10.0, digests=False):
                             timeout=run.get("timeout", timeout))
         o = {"status": r["status"], "timed_out": r["timed_out"], "panic": r["panic"],
              "stderr": r["stderr"][:2000], "stderr_len": len(r["stderr"]), "argv": argv}
+        if (env.get("config") or {}).get("debug"):
+            o["parsed"] = lib.extract_dbg(r["stderr"], "&query = ")
+            o["lexems"] = lib.extract_dbg(r["stderr"], "&self.lexems = ")
         fmt = run.get("fmt", "list")
         if fmt == "list":
             o["rows"] = lib.split_list(r["stdout"], run.get("ncols", 1))
@@ -86,6 +89,7 @@ def default_execute(scn, ctx, timeout=10.0, digests=False):
             o["bytes"] = list(r["stdout"])
         elif fmt == "text":
             o["text"] = r["stdout"].decode("utf-8", "replace")
+            o["lines_sorted"] = sorted(o["text"].splitlines())
         elif fmt == "none":
             o["stdout_head"] = r["stdout"][:200].decode("utf-8", "replace")
         o["nbytes"] = len(r["stdout"])
